@@ -210,3 +210,21 @@ package util
 //@   loop 1 invariant [untouched-so-far] forall k string :: !#done[k] && !old(has(dst, k)) ==> !has(dst, k)
 //@   loop 1 invariant [source-untouched] dst != nil && src != nil && dst != src && (forall k string :: has(src, k) == old(has(src, k)) && src[k] == old(src[k]))
 
+
+// ---- C11: handing the parent's globals down to a subchart must not write into the parent's tables: what a
+// subchart's defaults add to a nested global table stays in that subchart. (deepCopyMap: a deep copy shares no
+// table with what existed, unless the copy failed and the original is handed back.)
+//@ func deepCopyMap
+//@   props C11
+//@   ensures [the-argument-or-an-unshared-copy] result == vals || (result != nil && fresh(result) && (forall mm gomap[string]interface{} :: !fresh(mm) ==> !under(result, mm)))
+//@   ensures [writes-only-its-own-tables] forall mm gomap[string]interface{}, k string :: !fresh(mm) ==> has(mm, k) == old(has(mm, k)) && mm[k] == old(mm[k])
+//@   ensures [copies-unless-the-copy-fails] GcopyFailed >= old(GcopyFailed) && (GcopyFailed == old(GcopyFailed) && vals != nil ==> result != vals)
+
+//@ func coalesceGlobals
+//@   props C11
+//@   requires dest != nil && src != nil && dest != src
+//@   requires [caller=value-trees-are-assumed-unshared] under(dest, dest) && (forall k string :: has(dest, k) && typeis(dest[k], map[string]interface{}) ==> under(dest, dest[k].(map[string]interface{}))) && (forall mm gomap[string]interface{} :: under(dest, mm) ==> !under(src, mm)) && (forall mm gomap[string]interface{} :: !under(nil, mm))
+//@   ensures [the-parent-s-tables-are-not-written] [C11] GcopyFailed == old(GcopyFailed) ==> (forall mm gomap[string]interface{}, k string :: under(src, mm) && !fresh(mm) ==> has(mm, k) == old(has(mm, k)) && mm[k] == old(mm[k]))
+//@   loop 1 invariant [no-copy-failed-so-far-or-some-did] GcopyFailed >= old(GcopyFailed)
+//@   loop 1 invariant [the-parent-s-tables-are-not-written-so-far] GcopyFailed == old(GcopyFailed) ==> (forall mm gomap[string]interface{}, k string :: under(src, mm) && !fresh(mm) ==> has(mm, k) == old(has(mm, k)) && mm[k] == old(mm[k]))
+//@   loop 1 invariant [destination-globals-are-the-subchart-s-own] dest != nil && src != nil && !under(src, dest) && (fresh(dg) || !under(src, dg))
